@@ -31,15 +31,19 @@ CHECKS = {
        "then UpdatePhenotype) and by real epochs of the sequential and the parallel executor are recorded with their current "
        "genome and the network Organism.Phenotype() returns; the trace specification Trace_PhenoCache evaluates with the "
        "specification's own Genesis that the phenotype is the expression of the current genome (invariant Inv_C11_Cache).",
-  note="Exhaustive within the shapes of MC_Phenotype: quick = 2..5 nodes (incl. an id layout with gaps), every set of <= 2..4 "
-       "genes over all <<src,dst,rec>> slots (self-loops, recurrent flags, parallel genes differing in the flag) with every "
-       "enabled/disabled mix, <= 1 module with 1..2 inputs and 1..2 outputs (<= 3 in total, enabled or disabled); thorough adds "
-       "6- and 7-node shapes, up to 4 genes and 2 modules. Weights, activation types, innovation numbers and gene order are "
-       "payload rotated by a pattern, not crossed. Modules whose input and output lists overlap and genomes without a gene or "
-       "an output (Genesis refuses them) are out of scope; the order of the node/link lists and of successor lists is not "
-       "compared (the statement does not fix it); 'reported as nil' means the interface value == nil (a nil pointer wrapped in a "
-       "graph.Node / graph.Edge is a failure). The cache clause is sampled: seeded random lineage steps and epochs. "
-       "Trusted: TLC, the projection of networks/genomes in the harness, per-observation interning of float weights.",
+  note="Exhaustive within the shapes of MC_Phenotype (one TLC state per genome). Quick (17 116 genomes): node lists I,O / "
+       "I,B,O,H / I,I,H,O with id gaps (1,2,4,6) / B,I,O,O,H; every set of <= 4/3/3/2 genes over all <<src,dst,rec>> slots "
+       "(src any node, dst any non-sensor: self-loops, recurrent flags, parallel genes differing in the flag) with every "
+       "enabled/disabled mix; modules with 1..2 listed inputs and 1..2 listed outputs (<= 3 in total), enabled or disabled: "
+       "<= 2 on the 2-node shape, 1 on the 4-node shapes (with one gene). Thorough (278 872 genomes): adds I,H,O with two "
+       "modules, 6- and 7-node shapes, up to 4 genes on 4 nodes and 3 genes on 5..6 nodes. Weights (3 symbols incl. 0), "
+       "activation types, innovation numbers and gene/io order are payload rotated by a pattern, not crossed. Out of scope: "
+       "modules whose input and output lists overlap (a TLC sanity config shows the transcribed edgeBetween fails there), "
+       "genomes without a gene or an output (Genesis refuses them). Not compared because the statement does not fix it: the "
+       "order of node/link/successor lists, the weight value reported for an absent edge, and Weight(x,x) on a node without "
+       "self-loop (gonum's convention allows true; counted). 'Reported as nil' means the interface value == nil. The cache "
+       "clause is sampled: seeded lineage steps and epochs (quick 821, thorough ~18 000 organism observations), sequential "
+       "and parallel executor. Trusted: TLC, the harness' projection of networks/genomes, per-observation interning of weights.",
   technique=B2 + "; TLA+ trace validation (TLC) of recorded organisms for the phenotype-cache clause", ref="DESIGN.md 7/C11"),
 }
 
